@@ -4,6 +4,8 @@
 package main
 
 import (
+	"bytes"
+	"sort"
 	"crypto/rand"
 	"encoding/base64"
 	"errors"
@@ -74,12 +76,56 @@ func generate(pw []byte, cost int, rnd []byte) ([]byte, error) {
 	return bcrypt.GenerateFromPassword(pw, cost)
 }
 
+// feature tags of the op being generated; every unordered pair is counted as pair.<a>+<b>
+var tags []string
+
+func tag(s string)             { tags = append(tags, s) }
+func st(g *hx.Gen, s string)   { g.Stat(s); tag(s) }
+func flushPairs(g *hx.Gen) {
+	sort.Strings(tags)
+	for i := range tags {
+		for j := i + 1; j < len(tags); j++ {
+			if tags[i] != tags[j] {
+				g.Stat("pair." + tags[i] + "+" + tags[j])
+			}
+		}
+	}
+	tags = tags[:0]
+}
+
+func pwTags(pw []byte) {
+	n := len(pw)
+	switch {
+	case n == 0:
+		tag("pwlen.0")
+	case n <= 55:
+		tag("pwlen.1-55")
+	case n <= 57:
+		tag("pwlen.56-57")
+	case n <= 71:
+		tag("pwlen.58-71")
+	case n == 72:
+		tag("pwlen.72")
+	default:
+		tag("pwlen.over72")
+	}
+	if bytes.IndexByte(pw, 0) >= 0 {
+		tag("pw.has-NUL")
+	}
+	for _, b := range pw {
+		if b >= 0x80 {
+			tag("pw.has-high-byte")
+			break
+		}
+	}
+}
+
 // password: 0..80 bytes with NULs and high bytes, boundary lengths favoured
 func password(r *hx.Rand) []byte {
 	var n int
 	switch r.Intn(6) {
 	case 0:
-		n = r.PickInt(0, 1, 55, 56, 57, 70, 71, 72, 72, 72, 73, 74, 80)
+		n = r.PickInt(0, 0, 1, 55, 56, 56, 57, 57, 70, 71, 72, 72, 73, 74, 80)
 	case 1:
 		n = r.Range(60, 80)
 	case 2:
@@ -108,31 +154,31 @@ func password(r *hx.Rand) []byte {
 }
 
 // candidate derives a password related to pw; the label is only a statistic
-func candidate(g *hx.Gen, pw []byte) []byte {
+func candidate(g *hx.Gen, pw []byte, cls int) []byte {
 	r := g.R
 	c := append([]byte(nil), pw...)
-	switch r.Intn(10) {
+	switch []int{0, 3, 4, 5, 6, 7, 8, 9}[cls%8] {
 	case 0, 1, 2:
-		g.Stat("cand.same")
+		st(g, "cand.same")
 		return c
 	case 3:
 		if len(c) > 0 {
 			i := r.Intn(len(c))
 			c[i] ^= 1 << r.Intn(8)
-			g.Stat("cand.bitflip")
+			st(g, "cand.bitflip")
 		}
 		return c
 	case 4:
-		g.Stat("cand.longer")
+		st(g, "cand.longer")
 		return append(c, byte(r.Intn(256)))
 	case 5:
 		if len(c) > 0 {
-			g.Stat("cand.shorter")
+			st(g, "cand.shorter")
 			return c[:len(c)-1]
 		}
 		return c
 	case 6: // pw ‖ 0 ‖ pw… : the same cyclic key → must verify
-		g.Stat("cand.cyclic-alias")
+		st(g, "cand.cyclic-alias")
 		k := append(append([]byte(nil), pw...), 0)
 		out := append([]byte(nil), k...)
 		for len(out) < len(k)*r.Range(2, 3) && len(out) < 90 {
@@ -144,7 +190,7 @@ func candidate(g *hx.Gen, pw []byte) []byte {
 			c = append(c, byte(1+r.Intn(255)))
 		}
 		base := append([]byte(nil), c[:72]...)
-		g.Stat("cand.tail-after-72")
+		st(g, "cand.tail-after-72")
 		return append(base, r.Bytes(r.Range(0, 8))...)
 	case 8: // differ exactly at byte 71 / 72
 		for len(c) < 74 {
@@ -152,10 +198,10 @@ func candidate(g *hx.Gen, pw []byte) []byte {
 		}
 		i := r.PickInt(70, 71, 72, 73)
 		c[i] ^= 0x10
-		g.Stat("cand.flip-at-7x")
+		st(g, "cand.flip-at-7x")
 		return c
 	}
-	g.Stat("cand.random")
+	st(g, "cand.random")
 	return password(r)
 }
 
@@ -181,7 +227,7 @@ func gen(g *hx.Gen) {
 			if cost < 4 && !g.Thorough() && r.Chance(3, 4) {
 				cost = 32
 			}
-			g.Stat("gen.cost-outside")
+			st(g, "gen.cost-outside")
 		}
 		rnd := r.Bytes(16)
 		if r.Chance(1, 10) {
@@ -194,10 +240,14 @@ func gen(g *hx.Gen) {
 		}
 		g.Stat("op.gen")
 		if len(pw) == 72 {
-			g.Stat("gen.pw-exactly-72")
+			st(g, "gen.pw-exactly-72")
 		} else if len(pw) > 72 {
-			g.Stat("gen.pw-over-72")
+			st(g, "gen.pw-over-72")
 		}
+		pwTags(pw)
+		tag(fmt.Sprintf("cost.%s", map[bool]string{true: strconv.Itoa(cost), false: "outside"}[cost >= 4 && cost <= 6]))
+		tag("op.gen")
+		flushPairs(g)
 		g.Emit("gen pw=%s cost=%d rnd=%s", hx.Hex(pw), cost, hx.Hex(rnd))
 		if cost >= 4 && cost <= 6 && len(pw) <= 72 {
 			h, err := generate(pw, cost, rnd)
@@ -207,6 +257,9 @@ func gen(g *hx.Gen) {
 				h = []byte("$2a$04$CCCCCCCCCCCCCCCCCCCCC.E5YPO9kmyuRGyh0XouQYb4YMJKvyOeW")
 			}
 			valid = append(valid, h)
+			for _, c := range h[7:] {
+				alphaSeen[c] = true
+			}
 			// the right password against the hash with ONE character changed (hash part, esp. its
 			// first/last character, and the last salt character whose low 4 bits are unused)
 			for k := 0; k < 2; k++ {
@@ -217,33 +270,44 @@ func gen(g *hx.Gen) {
 					c = hm[pos] ^ 1
 				}
 				hm[pos] = c
-				g.Stat("cmp.right-pw-1char")
+				st(g, "cmp.right-pw-1char")
+				pwTags(pw)
+				tag("cost." + strconv.Itoa(cost))
+				flushPairs(g)
 				g.Emit("cmp hash=%s pw=%s", hx.Hex(hm), hx.Hex(pw))
 			}
 			// other accepted spellings of the same hash: $2b$ / $2y$ / $2x$ / $2$ … and cost "+4"
 			hh := append([]byte(nil), h...)
-			switch r.Intn(8) {
+			resp := "cmp.plain-spelling"
+			respIdx++
+			switch []int{0, 1, 2, 3, 4, 5, 6}[respIdx%7] { // round-robin with the candidate classes (8): every pair occurs
 			case 0:
 				hh[2] = r.PickStr("b", "y", "x", "z", "\x00")[0]
-				g.Stat("cmp.other-minor")
+				resp = "cmp.other-minor"
 			case 1:
 				hh[1] = r.PickStr("0", "1", "$", "\x00")[0]
-				g.Stat("cmp.other-major")
+				resp = "cmp.other-major"
 			case 2:
 				if cost < 10 {
 					hh[4] = '+'
-					g.Stat("cmp.plus-cost")
+					resp = "cmp.plus-cost"
 				}
 			case 3:
 				hh = append(hh, r.Bytes(r.Range(1, 20))...)
-				g.Stat("cmp.trailing-garbage")
+				resp = "cmp.trailing-garbage"
 			case 4: // "$2$04$…" (no minor): one byte shorter, still 59
 				hh = append(append([]byte(nil), hh[:2]...), hh[3:]...)
-				g.Stat("cmp.no-minor")
+				resp = "cmp.no-minor"
 			}
 			for k := 0; k < 2; k++ {
 				g.Stat("op.cmp")
-				g.Emit("cmp hash=%s pw=%s", hx.Hex(hh), hx.Hex(candidate(g, pw)))
+				st(g, resp)
+				pwTags(pw)
+				tag("cost." + strconv.Itoa(cost))
+				candIdx++
+				cand := candidate(g, pw, candIdx)
+				flushPairs(g)
+				g.Emit("cmp hash=%s pw=%s", hx.Hex(hh), hx.Hex(cand))
 			}
 		}
 	}
@@ -264,7 +328,7 @@ func gen(g *hx.Gen) {
 				v = r.PickStr("$", "=", "\n", "\r", "+", "-", " ", "0", "9", "3", "4", "2", "/", ".", "\x00", "\xff", "_")[0]
 			}
 			h[p] = v
-			g.Stat("mal.mutate1")
+			st(g, "mal.mutate1")
 		case 5: // truncation / extension around 59/60
 			n := r.PickInt(0, 1, 2, 3, 7, 28, 29, 58, 59, 60, 61)
 			h = append([]byte(nil), base...)
@@ -272,16 +336,16 @@ func gen(g *hx.Gen) {
 				h = append(h, 'A')
 			}
 			h = h[:n]
-			g.Stat("mal.length")
+			st(g, "mal.length")
 		case 6: // random bytes
 			h = r.Bytes(r.Range(0, 80))
-			g.Stat("mal.random")
+			st(g, "mal.random")
 		case 7: // valid header, random printable rest
 			h = append([]byte(nil), base[:7]...)
 			for len(h) < r.Range(55, 70) {
 				h = append(h, "./ABCDEFGHIJKLMNOPQRSTUVWXYZabcdefghijklmnopqrstuvwxyz0123456789=\n\r$"[r.Intn(68)])
 			}
-			g.Stat("mal.header+junk")
+			st(g, "mal.header-junk")
 		case 8: // cost field variants
 			h = append([]byte(nil), base...)
 			c := r.PickStr("00", "03", "04", "31", "32", "99", "+4", "-4", "+9", " 4", "4 ", "0x", "1e", "٤٤"[:2], "__", "3\x00")
@@ -289,7 +353,7 @@ func gen(g *hx.Gen) {
 			if r.Bool() {
 				h[6] = byte(r.Intn(256)) // the byte after the cost is never checked
 			}
-			g.Stat("mal.cost")
+			st(g, "mal.cost")
 		case 9: // several newlines / '=' inside the salt (the stdlib decoder skips \r \n)
 			h = append([]byte(nil), base...)
 			k := r.Range(2, 6)
@@ -302,22 +366,55 @@ func gen(g *hx.Gen) {
 					h[7+18+j] = '\n'
 				}
 			}
-			g.Stat("mal.salt-nl")
+			st(g, "mal.salt-nl")
+		}
+		if len(h) >= 29 {
+			for _, c := range h[7:29] {
+				saltByteSeen[c] = true
+			}
 		}
 		cpw := pw
 		if r.Chance(1, 4) {
 			cpw = password(r)
+			tag("malpw.random")
+		} else {
+			tag("malpw.fixed")
 		}
 		// a syntactically valid hash with a large cost would make Compare run 2^cost rounds:
 		// such strings are only sent to Cost (op `cost`)
 		if c, ok := costOf(h); ok && c > 6 {
 			g.Stat("op.cost-only")
+			tag("op.cost-only")
+			flushPairs(g)
 			g.Emit("cost hash=%s", hx.Hex(h))
 			continue
 		}
+		flushPairs(g)
 		g.Emit("cmp hash=%s pw=%s", hx.Hex(h), hx.Hex(cpw))
 	}
+	// ---- rare-index coverage: the 64-entry alphabet (characters of the hashes the code produced) and the
+	// 256-entry decodeMap (byte values that occurred at a salt position of a string handed to Compare)
+	n64 := 0
+	for _, c := range "./ABCDEFGHIJKLMNOPQRSTUVWXYZabcdefghijklmnopqrstuvwxyz0123456789" {
+		if alphaSeen[byte(c)] {
+			n64++
+		}
+	}
+	g.StatN("table.bcrypt-alphabet.hit-of-64", n64)
+	nd := 0
+	for _, b := range saltByteSeen {
+		if b {
+			nd++
+		}
+	}
+	g.StatN("table.base64-decodeMap.hit-of-256", nd)
+	if bcrypt.MinCost != 4 || bcrypt.MaxCost != 31 || bcrypt.DefaultCost != 10 {
+		g.Stat("CONSTANTS-CHANGED")
+	}
 }
+
+var alphaSeen, saltByteSeen [256]bool
+var respIdx, candIdx int
 
 // costOf is the harness's own reading of the cost field (independent of the code under test): it
 // only decides whether a string may be handed to Compare (2^cost rounds) or to Cost alone.
